@@ -121,12 +121,32 @@ def _(data: bytes) -> bytes:
 # ------------------------------------------------------------------------------------------------
 @contract("spsdk.utils.misc:get_bytes_cnt_of_int")
 def _(value: int, align_to_2n: bool, byte_cnt: Optional[Nat]) -> int:
-    raises(SPSDKValueError, value < 0 or (value > 0 and byte_cnt is not None and byte_cnt != 0 and value >= pow2(8 * byte_cnt)), label="rejects")
+    # byte_cnt None or 0 means "no requested width" (the code tests its truthiness)
+    let(req=byte_cnt is not None and byte_cnt != 0)
+    raises(SPSDKValueError, value < 0, label="negative-rejected")
+    raises(SPSDKValueError, value > 0 and req and (not align_to_2n or value < 65536) and value >= pow2(8 * byte_cnt),
+           label="does-not-fit")
+    raises(SPSDKValueError, value >= 65536 and req and align_to_2n and value >= pow2(32 * (byte_cnt // 4)),
+           label="does-not-fit-after-align")
     ensures(result >= 1, label="positive")
     ensures(0 <= value and value < pow2(8 * result), label="fits")
-    ensures(implies(byte_cnt is not None and byte_cnt != 0, result == byte_cnt), label="requested-width")
+    ensures(implies(req, result == byte_cnt), label="requested-width")
+    ensures(implies(not req and (not align_to_2n or value < 65536), result == 1 or value >= pow2(8 * (result - 1))),
+            label="minimal-width")
+    ensures(implies(not req and align_to_2n and value >= 65536, result % 4 == 0 and value >= pow2(8 * (result - 4))),
+            label="documented-width-4n")
     pure()
     sample(byte_cnt=Optional[Range(0, 80)])
+    cover(value=70000, align_to_2n=True, byte_cnt=None)
+
+
+@invariant("spsdk.utils.misc:get_bytes_cnt_of_int", loop=0)
+def _():
+    let(v0=old(value))
+    holds(value >= 0 and cnt >= 0 and v0 > 0)
+    holds(value * pow2(8 * cnt) <= v0 and v0 < (value + 1) * pow2(8 * cnt), label="window")
+    holds(implies(cnt >= 1, v0 >= pow2(8 * (cnt - 1))), label="minimal")
+    variant(value)
 
 
 @contract("spsdk.utils.misc:value_to_int")
